@@ -433,6 +433,11 @@ func c07Scenarios() []c07Scenario {
 		{name: "slowget-overwrite3", kinds: allSchedKinds, setupOps: []cOp{{Kind: "put", Key: "k", Body: bigBody("A", 40000)}},
 			threads: [][]cOp{{{Kind: "get", Key: "k"}}, {{Kind: "put", Key: "k", Body: bigBody("B", 40000)}, {Kind: "put", Key: "k", Body: bigBody("C", 30000)}, {Kind: "put", Key: "k2", Body: bigBody("D", 50000)}}},
 			final:   []cOp{{Kind: "get", Key: "k"}}},
+		// two readers of different large objects: what one response still has to send must not
+		// be touched by the other request (a buffer shared between requests)
+		{name: "slowget-get-other", kinds: allSchedKinds, setupOps: []cOp{{Kind: "put", Key: "k", Body: bigBody("A", 40000)}, {Kind: "put", Key: "k2", Body: bigBody("B", 40000)}},
+			threads: [][]cOp{{{Kind: "get", Key: "k"}}, {{Kind: "get", Key: "k2"}}},
+			final:   []cOp{{Kind: "get", Key: "k"}}},
 		{name: "slowpart-complete", kinds: []drv.Kind{drv.Mem, drv.Bolt}, upload: true, setupOps: []cOp{{Kind: "part", N: 1, Body: "a"}},
 			threads: [][]cOp{{{Kind: "part", N: 1, Body: "bbbb", Slow: 2}}, {{Kind: "complete", Parts: []model.CPart{{N: 1, ETag: eA}}}}, {{Kind: "listparts"}}},
 			final:   []cOp{{Kind: "get", Key: "k"}, {Kind: "listparts"}}},
